@@ -292,10 +292,10 @@ func ExecuteParked(fns []func(), pick Picker, maxSteps int, keepLog bool, before
 		// operation, i.e. until the condition it spins on can have changed.
 		switch op.Kind {
 		case KStore, KCAS, KAdd, KSwap, KLock, KUnlock, KBroadcast, KSignal, KCondWait, KTryLock:
+			// (the thread's own flag is cleared too: a spinner that finally acquired its lock is no longer
+			// spinning; leaving it set let a higher-priority spinner starve the new lock holder under PCT)
 			for _, o := range r.Threads {
-				if o != t {
-					o.yielded = false
-				}
+				o.yielded = false
 			}
 		}
 		if op.Kind == KGosched {
